@@ -131,8 +131,14 @@ func genC14(r *Rng, tier string) *Scenario {
 			sc.Family = "tree-undef-inserts"
 			n := r.Range(2, 4)
 			src := `@use("layouts/main")` + "\n"
+			sameLine := r.Chance(50)
 			for i := 0; i < n; i++ {
-				src += fmt.Sprintf("@insert(\"nope%d\", \"v%d\")\n", i, i)
+				src += fmt.Sprintf("@insert(\"nope%d\", \"v%d\")", i, i)
+				if sameLine {
+					src += " " // several undefined inserts on ONE line: a sort by line leaves them tied
+					continue
+				}
+				src += "\n"
 				if r.Chance(50) {
 					src += "\n\n"
 				}
@@ -231,6 +237,10 @@ func c14Prelude(w *World, sc *Scenario) {
 	oldFS := BuildFS(sc.Cwd, old)
 	simrt.SetFS(oldFS)
 	pw := &World{FS: oldFS, Rec: w.Rec}
+	// other struct types that print the same type name as the one in the scenario's data, first
+	for _, k := range []int64{2, 0, 1} {
+		pw.RunOp(Op{Kind: "evalstr", Src: "{{ r0 }}{{ r0.num }}", Data: &Val{T: "map", K: []string{"r0"}, V: []Val{{T: "named", I: k}}}}, Budget)
+	}
 	for _, op := range sc.Ops {
 		switch op.Kind {
 		case "newtemplate":
@@ -401,8 +411,8 @@ func (p c14) signature(sc *Scenario, ri, d int) string {
 	if sc.Replicas[ri].History {
 		hcand := canonicalReplica
 		hcand.History = true
-		if dd, a, b, _ := c14Diverges(sc, hcand); dd >= 0 {
-			return "earlier-history:" + sc.Family + ":" + diffField(a, b)
+		if dd, _, _, _ := c14Diverges(sc, hcand); dd >= 0 {
+			return "earlier-history:" + sc.Family
 		}
 	}
 	site, _, ok := c14SingleSite(sc, sc.Replicas[ri])
@@ -430,7 +440,8 @@ func (p c14) minimise(orig *Scenario, ri, d int, v *Violation) *Violation {
 	hcand := canonicalReplica
 	hcand.History = true
 	if dd, a, b, _ := c14Diverges(sc, hcand); rep.History && dd >= 0 {
-		sig = "earlier-history:" + sc.Family + ":" + diffField(a, b)
+		_, _ = a, b
+		sig = "earlier-history:" + sc.Family
 		sc.Replicas[1] = hcand
 	} else if dd, _, _, _ := c14Diverges(sc, cand); dd >= 0 {
 		sig = "clock-or-prng"
